@@ -17,5 +17,9 @@ CONSTANTS
   BugNoCloseWrong = FALSE
   BugAbsorb = FALSE
   BugInlineRefresh = FALSE
+  BugPrefixMatch = FALSE
+  BugAnySet = FALSE
+  MasterSet <- Own
+  SetNames <- NamesOwn
 INVARIANTS GenDone
 CHECK_DEADLOCK FALSE
